@@ -54,6 +54,10 @@ func checkC06(c *Ctx) error {
 		}
 		_, err = c.mustTLC("GenExpr/sim", TLCOpts{Module: "GenExpr", Cfg: "GenExpr.sim.cfg", Simulate: n, Depth: 16, Seed: c.Seed, Timeout: 40 * time.Minute}, false, pool.feed)
 	}
+	// one operator evaluated several times in one render with changing operand values (GenOpSeq.tla, theorem Pointwise)
+	if err == nil {
+		_, err = c.mustTLC("GenOpSeq/GenOpSeq.cfg", TLCOpts{Module: "GenOpSeq", Cfg: "GenOpSeq.cfg", Workers: 4, Seed: c.Seed, Timeout: 20 * time.Minute}, true, pool.feed)
+	}
 	// the parser machine (Pratt.tla): trees printed by the documented grammar, parsed by the machine (PrattAgree),
 	// evaluated under four valuations; token words accepted / rejected (Reprint)
 	if err == nil {
